@@ -86,7 +86,10 @@ func TestVerifC17(t *testing.T) {
 			}
 			c17RandomCase(r, env)
 		})
-		class := "random"
+		class := "varying-ttl"
+		if env.Uniform {
+			class = "uniform-ttl"
+		}
 		if i < len(corpus) {
 			class = "corpus"
 		}
@@ -107,7 +110,7 @@ func TestVerifC17(t *testing.T) {
 		totals["trimmed_reads"] += env.SawTrim
 		totals["nonempty_reads"] += env.SawNonEmpty
 		totals["ops"] += len(env.Ops)
-		nontrivial := env.SawNonEmpty > 0 && (env.SawExpired > 0 || env.SawEpochChange > 0 || env.SawTrim > 0)
+		nontrivial := env.Uniform && env.SawNonEmpty > 0 && (env.SawExpired > 0 || env.SawEpochChange > 0 || env.SawTrim > 0)
 		term := vApp("mkCase", vN(uint64(env.Now0)), vN(uint64(env.Meta0)), c17CoqOps(env.Ops), c17CoqOuts(env.Outs))
 		w.Case(i, term, map[string]any{"now0": env.Now0, "hub_meta_ms": env.Meta0, "ops": env.Ops, "outs": env.Outs}, class, nontrivial)
 	}
@@ -119,15 +122,30 @@ func TestVerifC17(t *testing.T) {
 func c17RandomCase(r *rand.Rand, env *c17Env) {
 	n := 5 + r.Intn(36)
 	nch := 1 + r.Intn(3)
+	// uniform: every channel has one history TTL and one metadata TTL (the realistic configuration and
+	// the domain of C17_refines); otherwise TTLs vary per operation (compared with the model only).
+	env.Uniform = r.Intn(4) != 0
+	cfg := make([]*c17Popts, nch)
+	for ch := range cfg {
+		cfg[ch] = c17GenPopts(r)
+	}
 	var id uint64
 	for k := 0; k < n; k++ {
 		ch := r.Intn(nch)
 		switch x := r.Intn(100); {
 		case x < 40:
 			id++
-			env.do(c17Op{Kind: "pub", Ch: ch, ID: id, P: c17GenPopts(r)})
+			p := c17GenPopts(r)
+			if env.Uniform {
+				p.TTL, p.Meta = cfg[ch].TTL, cfg[ch].Meta
+			}
+			env.do(c17Op{Kind: "pub", Ch: ch, ID: id, P: p})
 		case x < 70:
-			env.do(env.genHistory(r, ch))
+			op := env.genHistory(r, ch)
+			if env.Uniform {
+				op.Meta = cfg[ch].Meta
+			}
+			env.do(op)
 		case x < 75:
 			env.do(c17Op{Kind: "rem", Ch: ch})
 		default:
@@ -136,6 +154,10 @@ func c17RandomCase(r *rand.Rand, env *c17Env) {
 	}
 	// finish with a full read of every channel
 	for ch := 0; ch < nch; ch++ {
-		env.do(c17Op{Kind: "hist", Ch: ch, Limit: -1})
+		op := c17Op{Kind: "hist", Ch: ch, Limit: -1}
+		if env.Uniform {
+			op.Meta = cfg[ch].Meta
+		}
+		env.do(op)
 	}
 }
